@@ -166,9 +166,17 @@ func (m *Machine) addCodecAxioms(t *sym.Term, seen map[*sym.Term]bool) {
 		case "uf_fmtu":
 			m.assertPC(sym.UF("uf_pu_ok", sym.BoolSort, t))
 			m.assertPC(sym.Eq(sym.UF("uf_pu_val", sym.BV(64), t), t.Args[0]))
+			// an unsigned rendering read back as a signed number: fits iff below 2^63
+			fits := sym.SLe(sym.BVConst(64, 0), t.Args[0])
+			m.assertPC(sym.Eq(sym.UF("uf_pi_ok", sym.BoolSort, t), fits))
+			m.assertPC(sym.Implies(fits, sym.Eq(sym.UF("uf_pi_val", sym.BV(64), t), t.Args[0])))
 		case "uf_fmti":
 			m.assertPC(sym.UF("uf_pi_ok", sym.BoolSort, t))
 			m.assertPC(sym.Eq(sym.UF("uf_pi_val", sym.BV(64), t), t.Args[0]))
+			// a signed rendering read back as an unsigned number: parses iff not negative
+			nonneg := sym.SLe(sym.BVConst(64, 0), t.Args[0])
+			m.assertPC(sym.Eq(sym.UF("uf_pu_ok", sym.BoolSort, t), nonneg))
+			m.assertPC(sym.Implies(nonneg, sym.Eq(sym.UF("uf_pu_val", sym.BV(64), t), t.Args[0])))
 		}
 	}
 	for _, a := range t.Args {
